@@ -223,20 +223,40 @@ Definition of_blocks (r : list (Z * list pt) * bool) : sx :=
       of_Zs (map (fun b => zlen (snd b)) (fst r));
       of_bool (snd r); I 3 ].
 
-(* [ijv rows, indexes] -> [rows (label,i,j), counts, overflow, 3]; an empty ijv is rejected
-   (labels_ijv.max(axis=0) raises): I (-1) *)
+(* assert np.all(labels_ijv >= 0); assert np.all(indexes >= 0) *)
+Definition kernel_accepts (ijv : list row) (indexes : list Z) : bool :=
+  forallb (fun r => (0 <=? r_i r) && (0 <=? r_j r) && (0 <=? r_v r)) ijv && forallb (fun l => 0 <=? l) indexes.
+
+(* [ijv rows, indexes] -> [rows (label,i,j), counts, overflow, 3]; I (-1) when the call is rejected:
+   a negative entry (the two assertions) or an empty ijv (labels_ijv.max(axis=0) raises) *)
 Definition entry_hull_ijv (x : sx) : sx :=
   match as_rows (arg 0 x) with
   | [] => I (-1)
-  | ijv => of_blocks (convex_hull_ijv ijv (as_Zs (arg 1 x)))
+  | ijv => if kernel_accepts ijv (as_Zs (arg 1 x))
+           then of_blocks (convex_hull_ijv ijv (as_Zs (arg 1 x))) else I (-1)
   end.
 
-(* [labels image, indexes] -> same shape; last component = number of columns of the array *)
+(* indexes=None: np.unique(labels) (sorted, distinct) without 0 *)
+Fixpoint insert_uniq (x : Z) (l : list Z) : list Z :=
+  match l with
+  | [] => [x]
+  | y :: t => if x <? y then x :: l else if x =? y then l else y :: insert_uniq x t
+  end.
+Definition default_indexes (im : img) : list Z :=
+  filter (fun x => negb (x =? 0)) (fold_right insert_uniq [] (concat im)).
+
+(* [labels image, indexes or I (-1) for None] -> [rows, counts, overflow, ncol, indexes used];
+   ncol = number of columns of the returned array.  The kernel's assertion on the index list is
+   reached only when there is an index and an outline pixel. *)
 Definition entry_hull_labels (x : sx) : sx :=
-  match convex_hull (as_Zss (arg 0 x)) (as_Zs (arg 1 x)) with
-  | HEmpty2 => L [L []; L []; I 0; I 2]
-  | HBlank n => L [L []; of_Zs (repeat 0 n); I 0; I 3]
-  | HRows r => of_blocks r
+  let im := as_Zss (arg 0 x) in
+  let indexes := match arg 1 x with I _ => default_indexes im | L _ => as_Zs (arg 1 x) end in
+  match convex_hull im indexes with
+  | HEmpty2 => L [L []; L []; I 0; I 2; of_Zs indexes]
+  | HBlank n => L [L []; of_Zs (repeat 0 n); I 0; I 3; of_Zs indexes]
+  | HRows r => if forallb (fun l => 0 <=? l) indexes
+               then match of_blocks r with L l => L (l ++ [of_Zs indexes]) | y => y end
+               else I (-1)
   end.
 
 (* one label alone: [points sorted by (j,i), slack, max_i] -> vertices *)
